@@ -28,3 +28,6 @@ func batonWait(tid int) int64 { return <-grantCh[tid] }
 func batonRecv() msg { return <-reqCh }
 
 func batonGrant(tid int, v int64) { grantCh[tid] <- v }
+
+// batonAbandon: leaked threads stay blocked on the previous execution's channels.
+func batonAbandon(tid int) {}
